@@ -58,6 +58,9 @@ def run_once(repo, force, exclude):
         if os.path.exists(cpath) and not force:
             res = json.load(open(cpath))
             res["cached"] = True
+            for name, stmt, props, fn in theorems:          # which properties a theorem serves is not part of the key
+                if name in res["theorems"]:
+                    res["theorems"][name]["props"] = props
             res["report"] = json.loads(json.dumps(report, default=str))     # verdicts are cached by text; the reasons are this run's
             res["seconds"] = round(time.time() - t0, 2)
             return res
